@@ -40,8 +40,19 @@ type tmDelivery struct {
 
 // 40 cells and the runs they denote: junk outside the box, start box (once or twice), runs introduced by colour
 // and size codes, end box or padding
-func tmRow(r *rng, charset int) ([]byte, []tmRun) {
+// the structure of a generated row, as the Coq specification (Model/TtxSpec.v, rowspec) has it
+type tmSeg struct{ Codes, Cells []byte }
+type tmRowSpec struct {
+	Pre    []byte
+	Boxes  int
+	Segs   []tmSeg
+	HasEnd bool
+	End    []byte
+}
+
+func tmRow(r *rng, charset int) ([]byte, []tmRun, *tmRowSpec) {
 	var cells []byte
+	sp := &tmRowSpec{}
 	color, dh, ds, dw := -1, -1, -1, -1
 	code := func() {
 		if r.chance(2, 3) {
@@ -74,9 +85,11 @@ func tmRow(r *rng, charset int) ([]byte, []tmRun) {
 			cells = append(cells, r.pick(" ", "x", "y", "Q")[0])
 		}
 	}
+	sp.Pre = append([]byte{}, cells...)
 	cells = append(cells, 0x0b)
 	if r.chance(1, 2) {
 		cells = append(cells, 0x0b)
+		sp.Boxes = 1
 	}
 	var runs []tmRun
 	var raw []byte
@@ -94,6 +107,7 @@ func tmRow(r *rng, charset int) ([]byte, []tmRun) {
 	}
 	nr := 1 + r.intn(3)
 	for k := 0; k < nr && len(cells) < 34; k++ {
+		mark := len(cells)
 		if k > 0 || r.chance(1, 2) {
 			flush(0)
 			code()
@@ -101,6 +115,7 @@ func tmRow(r *rng, charset int) ([]byte, []tmRun) {
 				code()
 			}
 		}
+		sp.Segs = append(sp.Segs, tmSeg{Codes: append([]byte{}, cells[mark:]...)})
 		n := 1 + r.intn(8)
 		for i := 0; i < n && len(cells) < 37; i++ {
 			var c byte
@@ -119,10 +134,14 @@ func tmRow(r *rng, charset int) ([]byte, []tmRun) {
 			}
 			cells = append(cells, c)
 			raw = append(raw, c)
+			sp.Segs[len(sp.Segs)-1].Cells = append(sp.Segs[len(sp.Segs)-1].Cells, c)
 		}
 	}
 	if r.chance(2, 3) {
 		flush(0)
+		sp.HasEnd = true
+		mark := len(cells) + 1
+		defer func() { sp.End = append([]byte{}, cells[mark:]...) }()
 		cells = append(cells, 0x0a)
 		for len(cells) < 40 {
 			if r.chance(1, 3) {
@@ -135,9 +154,10 @@ func tmRow(r *rng, charset int) ([]byte, []tmRun) {
 		flush(40 - len(cells)) // the padding is boxed too: trailing spaces of the last run
 		for len(cells) < 40 {
 			cells = append(cells, ' ')
+			sp.Segs[len(sp.Segs)-1].Cells = append(sp.Segs[len(sp.Segs)-1].Cells, ' ')
 		}
 	}
-	return cells, runs
+	return cells, runs, sp
 }
 
 // ---- units ------------------------------------------------------------------------------------------------
@@ -298,8 +318,32 @@ func tmBenign(r *rng, mag int, kinds map[string]int) []byte {
 
 // ---- schedule and multiplexing -------------------------------------------------------------------------------
 
+type tmEv struct {
+	T    int64
+	Kind int // 0 before the first instance, 1 header, 2 row, 3 cannot-matter unit while receiving, 4 terminating header, 5 after it
+	U    []byte
+}
+type tmPES struct {
+	T     int64
+	Ident byte
+	N     int
+}
+type tmInstSpec struct {
+	T    int64
+	CS   int
+	Rows []struct {
+		Row int
+		Sp  *tmRowSpec
+	}
+}
+
 type tmCase struct {
-	Page     int // option handed to the reader (0: auto-detect)
+	Evs      []tmEv
+	PESs     []tmPES
+	Insts    []tmInstSpec
+	Mag, PN  int
+	SpecOK   bool // the case can be expressed as schedule x multiplexing x PES grouping of the Coq specification
+	Page     int  // option handed to the reader (0: auto-detect)
 	Ds       []tmDelivery
 	Want     []tmCue
 	Human    map[string]interface{}
@@ -315,7 +359,9 @@ func genTmCase(r *rng, wild bool) *tmCase {
 	charsets := []int{0, 1, 4, 7}
 	charset := charsets[r.intn(4)]
 	perInstance := r.chance(1, 3)
-	tc := &tmCase{Oracle: true, Monotone: true}
+	parityCase := r.chance(1, 5)
+	pesNoise := r.chance(1, 3) // deliveries without time, with another data identifier, empty or truncated
+	tc := &tmCase{Oracle: true, Monotone: true, SpecOK: true, Mag: mag, PN: page}
 	if !auto {
 		tc.Page = mag*100 + page
 	}
@@ -323,11 +369,18 @@ func genTmCase(r *rng, wild bool) *tmCase {
 	var cur []byte
 	t := int64(r.intn(5000))
 	ident := func() byte { return byte(0x10 + r.intn(16)) }
+	sect, pending := 0, 0 // section of the multiplexing being generated (event kind of a plain emit); events in the open PES
 	flush := func() {
 		if cur != nil {
-			tc.Ds = append(tc.Ds, tmDelivery{T: t, Data: append([]byte{ident()}, cur...)})
-			cur = nil
+			id := ident()
+			tc.Ds = append(tc.Ds, tmDelivery{T: t, Data: append([]byte{id}, cur...)})
+			tc.PESs = append(tc.PESs, tmPES{T: t, Ident: id, N: pending})
+			cur, pending = nil, 0
 		}
+	}
+	record := func(kind int, u []byte) {
+		tc.Evs = append(tc.Evs, tmEv{T: t, Kind: kind, U: append([]byte{}, u...)})
+		pending++
 	}
 	maybeSplit := func() {
 		if r.chance(1, 3) {
@@ -336,8 +389,12 @@ func genTmCase(r *rng, wild bool) *tmCase {
 				t += int64(r.intn(400))
 			}
 			// deliveries that are dropped or carry no units at all
+			if !pesNoise {
+				return
+			}
 			if r.chance(1, 8) {
 				kinds["pes-without-time"]++
+				tc.SpecOK = false
 				d := []byte{ident()}
 				d = append(d, tmHeaderUnit(r, tmHeader{mag: mag, tens: page / 10, units: page % 10, subtitle: true, serial: serial})...)
 				d = append(d, rowPacket(mag, 3, []byte("\x0bNO TIME\x0a"))...)
@@ -345,6 +402,7 @@ func genTmCase(r *rng, wild bool) *tmCase {
 			}
 			if r.chance(1, 8) {
 				kinds["pes-other-identifier"]++
+				tc.SpecOK = false
 				d := []byte{[]byte{0x00, 0x0f, 0x20, 0x99, 0xff}[r.intn(5)]}
 				d = append(d, tmHeaderUnit(r, tmHeader{mag: mag, tens: page / 10, units: page % 10, subtitle: true, serial: serial})...)
 				d = append(d, rowPacket(mag, 3, []byte("\x0bNOT EBU\x0a"))...)
@@ -352,16 +410,21 @@ func genTmCase(r *rng, wild bool) *tmCase {
 			}
 			if r.chance(1, 12) {
 				kinds["pes-empty"]++
+				tc.SpecOK = false
 				tc.Ds = append(tc.Ds, tmDelivery{T: t, Data: nil})
 			}
 			if r.chance(1, 12) {
 				kinds["pes-truncated-unit"]++
+				tc.SpecOK = false
 				u := rowPacket(mag, 4, []byte("\x0bTRUNCATED\x0a"))
 				tc.Ds = append(tc.Ds, tmDelivery{T: t, Data: append([]byte{ident()}, u[:2+r.intn(len(u)-2)]...)})
 			}
 		}
 	}
 	emit := func(u []byte) {
+		if u != nil {
+			record(sect, u)
+		}
 		cur = append(cur, u...)
 		maybeSplit()
 	}
@@ -453,7 +516,11 @@ func genTmCase(r *rng, wild bool) *tmCase {
 		closeOpen(t)
 		op = &open{start: t, rows: map[int][]tmRun{}}
 		kinds["instance"]++
-		cur = append(cur, tmHeaderUnit(r, tmHeader{mag: mag, tens: page / 10, units: page % 10, subtitle: !selected || r.chance(2, 3), serial: serial, charset: cs, junk: uint32(r.u64())})...)
+		hu := tmHeaderUnit(r, tmHeader{mag: mag, tens: page / 10, units: page % 10, subtitle: !selected || r.chance(2, 3), serial: serial, charset: cs, junk: uint32(r.u64())})
+		record(1, hu)
+		sect = 3
+		tc.Insts = append(tc.Insts, tmInstSpec{T: t, CS: cs})
+		cur = append(cur, hu...)
 		selected = true
 		maybeSplit()
 		if r.chance(1, 6) {
@@ -479,9 +546,9 @@ func genTmCase(r *rng, wild bool) *tmCase {
 					continue
 				}
 				used[row] = true
-				cells, runs := tmRow(r, cs)
+				cells, runs, rsp := tmRow(r, cs)
 				u := tmRowUnit(r, mag, row, cells)
-				if r.chance(1, 6) {
+				if parityCase && r.chance(1, 2) {
 					// a cell failing parity: it reaches the row parser as 0x00
 					kinds["parity-error"]++
 					k := r.intn(40)
@@ -490,18 +557,27 @@ func genTmCase(r *rng, wild bool) *tmCase {
 				}
 				kinds["row"]++
 				op.rows[row] = runs
+				in := &tc.Insts[len(tc.Insts)-1]
+				in.Rows = append(in.Rows, struct {
+					Row int
+					Sp  *tmRowSpec
+				}{row, rsp})
+				sect = 2
 				emit(u)
+				sect = 3
 			}
 			noise(3)
 		}
 		// the instance may be cut short by the header of another page; what follows is not ours
 		if r.chance(1, 3) {
 			kinds["terminator"]++
+			sect = 4
 			if serial && r.chance(1, 2) {
 				emit(otherHeader(false, true, true)) // serial mode: any other page
 			} else {
 				emit(otherHeader(true, serial, true))
 			}
+			sect = 5
 			dead()
 		}
 		flush()
@@ -512,7 +588,11 @@ func genTmCase(r *rng, wild bool) *tmCase {
 		// trailing deliveries move the last presentation time
 		t += int64(1 + r.intn(3000))
 		kinds["trailing-pes"]++
-		tc.Ds = append(tc.Ds, tmDelivery{T: t, Data: append([]byte{ident()}, tmBenign(r, mag, kinds)...)})
+		cur = nil
+		emitTrail := tmBenign(r, mag, kinds)
+		record(sect, emitTrail)
+		cur = append(cur, emitTrail...)
+		flush()
 	}
 	var first, last int64 = -1, -1
 	for _, d := range tc.Ds {
@@ -594,6 +674,87 @@ func genTmCase(r *rng, wild bool) *tmCase {
 		tc.Human["wild"] = true
 	}
 	return tc
+}
+
+// the case as schedule x multiplexing x PES grouping, for the extracted specification (suite ttxspec)
+func (tc *tmCase) specInput() (string, bool) {
+	e := &enc{}
+	ok := tc.SpecOK
+	unit := func(u []byte) {
+		if len(u) < 2 || int(u[1]) != len(u)-2 {
+			ok = false
+			e.n(0).n(0)
+			return
+		}
+		e.n(int(u[0])).bytes(u[2:])
+	}
+	e.bool(tc.Page == 0).n(tc.Mag).n(tc.PN)
+	e.n(len(tc.Insts))
+	for _, in := range tc.Insts {
+		e.i(in.T * 1e6).n(in.CS).n(len(in.Rows))
+		for _, rw := range in.Rows {
+			e.n(rw.Row).bytes(rw.Sp.Pre).n(rw.Sp.Boxes).n(len(rw.Sp.Segs))
+			for _, g := range rw.Sp.Segs {
+				e.bytes(g.Codes).bytes(g.Cells)
+			}
+			e.bool(rw.Sp.HasEnd)
+			if rw.Sp.HasEnd {
+				e.bytes(rw.Sp.End)
+			}
+		}
+	}
+	i := 0
+	var pre []tmEv
+	for i < len(tc.Evs) && tc.Evs[i].Kind == 0 {
+		pre = append(pre, tc.Evs[i])
+		i++
+	}
+	e.n(len(pre))
+	for _, ev := range pre {
+		e.i(ev.T * 1e6)
+		unit(ev.U)
+	}
+	e.n(len(tc.Insts))
+	for range tc.Insts {
+		if i >= len(tc.Evs) || tc.Evs[i].Kind != 1 {
+			return "", false
+		}
+		unit(tc.Evs[i].U)
+		i++
+		j := i
+		for j < len(tc.Evs) && (tc.Evs[j].Kind == 2 || tc.Evs[j].Kind == 3) {
+			j++
+		}
+		e.n(j - i)
+		for ; i < j; i++ {
+			e.i(tc.Evs[i].T * 1e6).bool(tc.Evs[i].Kind == 2)
+			unit(tc.Evs[i].U)
+		}
+		if i < len(tc.Evs) && tc.Evs[i].Kind == 4 {
+			e.n(1).i(tc.Evs[i].T * 1e6)
+			unit(tc.Evs[i].U)
+			i++
+			j = i
+			for j < len(tc.Evs) && tc.Evs[j].Kind == 5 {
+				j++
+			}
+			e.n(j - i)
+			for ; i < j; i++ {
+				e.i(tc.Evs[i].T * 1e6)
+				unit(tc.Evs[i].U)
+			}
+		} else {
+			e.n(0)
+		}
+	}
+	if i != len(tc.Evs) {
+		return "", false
+	}
+	e.n(len(tc.PESs))
+	for _, p := range tc.PESs {
+		e.i(p.T * 1e6).n(int(p.Ident)).n(p.N)
+	}
+	return e.String(), ok
 }
 
 // ---- observation ------------------------------------------------------------------------------------------------
@@ -783,6 +944,12 @@ func suiteTeletextModel(R *runner, r *rng) {
 		}
 		R.countN("ttx.feed.cues", len(tc.Want))
 		R.add(o)
+		if in, ok := tc.specInput(); ok && c%4 != 3 {
+			// the same case as a ground-truth schedule and a multiplexing of the Coq specification: is it in the class
+			// mux_ok of the stream theorems, and does cues_of (extracted) say what the implementation returned?
+			R.count("ttx.spec.submitted")
+			R.add(&obs{Suite: "ttxspec", Group: "ttx.spec", Input: in, Impl: o.Impl, NT: len(tc.Want) > 0, Human: tc.Human})
+		}
 		if tc.Oracle && c%3 == 0 && tc.Human["kinds"].(map[string]int)["pes-empty"] == 0 {
 			// the whole path: muxer, demuxer, PID detection, ReadFromTeletext
 			pid := uint16(256 + r.intn(20))
